@@ -390,7 +390,6 @@ impl Check for Fungible {
         let qi = |f: &str, args: SVec<Val>| -> i128 { e.invoke_contract::<i128>(&id, &Symbol::new(e, f), args) };
         let mut m = Model { now: cfg.start_ledger, flavour: Some(cfg.flavour), ..Default::default() };
         let mut ev_bal: BTreeMap<usize, i128> = BTreeMap::new(); // balances reconstructed from events
-        let mut prev_kind = ("", false);
         for (i, s) in steps.iter().enumerate() {
             match s {
                 Step::List { user, on } => {
@@ -456,9 +455,7 @@ impl Check for Fungible {
                     };
                     let events = e.events().all();
                     let exp = m.apply(op, *signer);
-                    st.hit(if got { "tx.ok" } else { "tx.refused" });
-                    st.gram(&(prev_kind, kind, got));
-                    prev_kind = (kind, got);
+                    st.tx(kind, got);
                     // ---- C02 safety, stated without the model's outcome: who lost balance, and was that allowed?
                     if got {
                         for x in 0..cfg.actors {
